@@ -73,4 +73,253 @@ theorem reopen_inv3 (db : DB) (h : Inv3 db) (opts : Opts) (hs : SizeOK db)
   unfold vals
   rw [sabs]
 
+def browseGM (w : List (Key × Nat)) (k : Key) (vf : Bytes × Nat) : Bytes × Nat :=
+  if hasFlag vf.2 NO_BROWSE = true then vf else (vf.1, applyBrowsingFlags vf.2 (walkRes w k))
+
+theorem mget_mstep (m : M) (hnd : (Keys m).Nodup) (op : Op) (hr : ∀ a b c, op ≠ .reopen a b c) (j : Key) :
+    mget (mstep m op) j = vstep (mget m) op j := by
+  unfold mget
+  cases op with
+  | put k v =>
+    simp only [mstep, vstep, ilookup_iset]
+    by_cases hk : k = j <;> simp [hk]
+  | putExt k v f =>
+    simp only [mstep, vstep, ilookup_iset]
+    by_cases hk : k = j <;> simp [hk]
+  | del k =>
+    simp only [mstep, vstep, ilookup_ierase _ _ _ hnd]
+    by_cases hk : k = j <;> simp [hk]
+  | get k =>
+    simp only [mstep, vstep]
+    cases hl : ilookup k m with
+    | none => rfl
+    | some vf =>
+      obtain ⟨v, f⟩ := vf
+      simp only [ilookup_iset]
+      by_cases hk : k = j
+      · subst hk; simp [hl]
+      · simp [hk]
+  | browse w =>
+    simp only [mstep, vstep, mbrowseState]
+    have : (m.map fun (x : Key × (Bytes × Nat)) =>
+        match x with
+        | (k, v, f) => if hasFlag f NO_BROWSE = true then (k, v, f) else (k, v, applyBrowsingFlags f (walkRes w k))) =
+        m.map fun kr => (kr.1, browseGM w kr.1 kr.2) := by
+      apply List.map_congr_left
+      intro x _
+      obtain ⟨k, v, f⟩ := x
+      simp only [browseGM]
+      split <;> rfl
+    rw [this, ilookup_mapKV (browseGM w) j m]
+    cases ilookup j m with
+    | none => rfl
+    | some vf =>
+      simp only [Option.map_some, Option.some.injEq, browseGM]
+      split <;> rfl
+  | applyFlags k fl =>
+    simp only [mstep, vstep]
+    cases hl : ilookup k m with
+    | none => rfl
+    | some vf =>
+      obtain ⟨v, f⟩ := vf
+      simp only [ilookup_iset]
+      by_cases hk : k = j
+      · subst hk; simp [hl]
+      · simp [hk]
+  | defrag f => rfl
+  | sync => rfl
+  | noSync => rfl
+  | reopen a b c => exact absurd rfl (hr a b c)
+
+theorem keys_absv (db : DB) : Keys (absv db) = Keys db.index := by
+  simp [Keys, absv, absE, List.map_map]
+
+/-- one step of the extended sub-language: invariants, and the values follow the in-memory map -/
+theorem step_inv3' (db : DB) (h : Inv3 db) (op : Op) (ok : OpOK2 op) (fits : OpFits2 db op) :
+    Inv3 (step db op) ∧ ∀ k, vals (step db op) k = vstep (vals db) op k := by
+  cases op with
+  | reopen vol load opts =>
+    obtain ⟨rfl, rfl⟩ := ok
+    exact reopen_inv3 db h opts fits.1 fits.2
+  | put k v =>
+    refine ⟨step_inv3 db h _ ok fits, fun j => ?_⟩
+    unfold vals
+    rw [(step_cached db (.put k v) h.inv.cached ok).2]
+    exact mget_mstep _ (by rw [keys_absv]; exact h.inv.nodup) _ (fun _ _ _ => by simp) j
+  | putExt k v f =>
+    refine ⟨step_inv3 db h _ ok fits, fun j => ?_⟩
+    unfold vals
+    rw [(step_cached db (.putExt k v f) h.inv.cached ok).2]
+    exact mget_mstep _ (by rw [keys_absv]; exact h.inv.nodup) _ (fun _ _ _ => by simp) j
+  | del k =>
+    refine ⟨step_inv3 db h _ ok fits, fun j => ?_⟩
+    unfold vals
+    rw [(step_cached db (.del k) h.inv.cached ok).2]
+    exact mget_mstep _ (by rw [keys_absv]; exact h.inv.nodup) _ (fun _ _ _ => by simp) j
+  | get k =>
+    refine ⟨step_inv3 db h _ ok fits, fun j => ?_⟩
+    unfold vals
+    rw [(step_cached db (.get k) h.inv.cached ok).2]
+    exact mget_mstep _ (by rw [keys_absv]; exact h.inv.nodup) _ (fun _ _ _ => by simp) j
+  | browse w =>
+    refine ⟨step_inv3 db h _ ok fits, fun j => ?_⟩
+    unfold vals
+    rw [(step_cached db (.browse w) h.inv.cached ok).2]
+    exact mget_mstep _ (by rw [keys_absv]; exact h.inv.nodup) _ (fun _ _ _ => by simp) j
+  | applyFlags k fl =>
+    refine ⟨step_inv3 db h _ ok fits, fun j => ?_⟩
+    unfold vals
+    rw [(step_cached db (.applyFlags k fl) h.inv.cached ok).2]
+    exact mget_mstep _ (by rw [keys_absv]; exact h.inv.nodup) _ (fun _ _ _ => by simp) j
+  | defrag f =>
+    refine ⟨step_inv3 db h _ ok fits, fun j => ?_⟩
+    unfold vals
+    rw [(step_cached db (.defrag f) h.inv.cached ok).2]
+    rfl
+  | sync =>
+    refine ⟨step_inv3 db h _ ok fits, fun j => ?_⟩
+    unfold vals
+    rw [(step_cached db (.sync) h.inv.cached ok).2]
+    rfl
+  | noSync =>
+    refine ⟨step_inv3 db h _ ok fits, fun j => ?_⟩
+    unfold vals
+    rw [(step_cached db (.noSync) h.inv.cached ok).2]
+    rfl
+
+theorem run_inv3' (ops : List Op) (db : DB) (h : Inv3 db) (ok : ∀ op ∈ ops, OpOK2 op) (fits : RunFits2 db ops) :
+    Inv3 (run db ops) ∧ ∀ k, vals (run db ops) k = vrun (vals db) ops k := by
+  induction ops generalizing db with
+  | nil => exact ⟨h, fun _ => rfl⟩
+  | cons op t ih =>
+    obtain ⟨h1, h2⟩ := step_inv3' db h op (ok op List.mem_cons_self) fits.1
+    obtain ⟨h3, h4⟩ := ih (step db op) h1 (fun o ho => ok o (List.mem_cons_of_mem _ ho)) fits.2
+    refine ⟨h3, fun k => ?_⟩
+    show vals (run (step db op) t) k = vrun (vstep (vals db) op) t k
+    rw [h4 k]
+    have : vals (step db op) = vstep (vals db) op := funext h2
+    rw [this]
+
+/-! ### Count: association lists with distinct keys and the same key set have the same length -/
+
+theorem length_ierase {α : Type} (k : Key) (l : List (Key × α)) (h : k ∈ Keys l) :
+    (ierase k l).length + 1 = l.length := by
+  induction l with
+  | nil => cases h
+  | cons hd t ih =>
+    obtain ⟨j, q⟩ := hd
+    by_cases hj : j = k
+    · simp [ierase, hj]
+    · simp only [Keys, List.map_cons, List.mem_cons] at h
+      have hk : k ∈ Keys t := by
+        rcases h with h | h
+        · exact absurd h.symm hj
+        · exact h
+      simp only [ierase, hj, ↓reduceIte, List.length_cons]
+      have := ih hk
+      omega
+
+theorem ilookup_isSome_iff {α : Type} (k : Key) (l : List (Key × α)) : (ilookup k l).isSome = true ↔ k ∈ Keys l := by
+  induction l with
+  | nil => simp [ilookup, Keys]
+  | cons hd t ih =>
+    obtain ⟨j, q⟩ := hd
+    by_cases hj : j = k
+    · simp [ilookup, Keys, hj]
+    · have hj' : ¬ k = j := fun e => hj e.symm
+      simp only [ilookup, hj, ↓reduceIte, Keys, List.map_cons, List.mem_cons, hj', false_or]
+      exact ih
+
+theorem length_eq_of_same_keys {α β : Type} (l1 : List (Key × α)) (l2 : List (Key × β))
+    (h1 : (Keys l1).Nodup) (h2 : (Keys l2).Nodup)
+    (h : ∀ k, (ilookup k l1).isSome = (ilookup k l2).isSome) : l1.length = l2.length := by
+  induction l1 generalizing l2 with
+  | nil =>
+    cases l2 with
+    | nil => rfl
+    | cons hd t =>
+      have := h hd.1
+      simp [ilookup] at this
+  | cons hd t ih =>
+    obtain ⟨k, x⟩ := hd
+    simp only [Keys, List.map_cons, List.nodup_cons] at h1
+    have hk2 : k ∈ Keys l2 := by
+      rw [← ilookup_isSome_iff, ← h k]
+      simp [ilookup]
+    have hlen := length_ierase k l2 hk2
+    have := ih (ierase k l2) h1.2 (nodup_ierase k l2 h2) (by
+      intro j
+      rw [ilookup_ierase _ _ _ h2]
+      by_cases hj : k = j
+      · subst hj
+        simp only [↓reduceIte, Option.isSome_none]
+        have : ¬ (k ∈ Keys t) := h1.1
+        cases hl : ilookup k t with
+        | none => rfl
+        | some y => exact absurd ((ilookup_isSome_iff k t).mp (by simp [hl])) this
+      · simp only [hj, ↓reduceIte]
+        have := h j
+        simp only [ilookup, hj, ↓reduceIte] at this
+        exact this)
+    simp only [List.length_cons]
+    omega
+
+/-- the list-level map follows the value-level map -/
+theorem mrun_vals (ops : List Op) (m : M) (hnd : (Keys m).Nodup) :
+    (Keys (mrun m ops)).Nodup ∧ ∀ k, mget (mrun m ops) k = vrun (mget m) ops k := by
+  induction ops generalizing m with
+  | nil => exact ⟨hnd, fun _ => rfl⟩
+  | cons op t ih =>
+    have hnd' : (Keys (mstep m op)).Nodup := by
+      cases op with
+      | put k v => exact nodup_iset k _ m hnd
+      | putExt k v f => exact nodup_iset k _ m hnd
+      | del k => exact nodup_ierase k m hnd
+      | get k =>
+        simp only [mstep]
+        cases ilookup k m with
+        | none => exact hnd
+        | some vf => exact nodup_iset k _ m hnd
+      | browse w =>
+        simp only [mstep, mbrowseState]
+        have : Keys (m.map fun (x : Key × (Bytes × Nat)) =>
+            match x with
+            | (k, v, f) => if hasFlag f NO_BROWSE = true then (k, v, f) else (k, v, applyBrowsingFlags f (walkRes w k)))
+            = Keys m := by
+          unfold Keys
+          rw [List.map_map]
+          apply List.map_congr_left
+          intro x _
+          obtain ⟨k, v, f⟩ := x
+          simp only [Function.comp]
+          split <;> rfl
+        rw [this]; exact hnd
+      | applyFlags k fl =>
+        simp only [mstep]
+        cases ilookup k m with
+        | none => exact hnd
+        | some vf => exact nodup_iset k _ m hnd
+      | defrag f => exact hnd
+      | sync => exact hnd
+      | noSync => exact hnd
+      | reopen a b c => exact hnd
+    obtain ⟨a, b⟩ := ih (mstep m op) hnd'
+    refine ⟨a, fun k => ?_⟩
+    show mget (mrun (mstep m op) t) k = vrun (vstep (mget m) op) t k
+    rw [b k]
+    have : mget (mstep m op) = vstep (mget m) op := by
+      funext j
+      cases op with
+      | reopen a b c => rfl
+      | put k v => exact mget_mstep m hnd _ (fun _ _ _ => by simp) j
+      | putExt k v f => exact mget_mstep m hnd _ (fun _ _ _ => by simp) j
+      | del k => exact mget_mstep m hnd _ (fun _ _ _ => by simp) j
+      | get k => exact mget_mstep m hnd _ (fun _ _ _ => by simp) j
+      | browse w => exact mget_mstep m hnd _ (fun _ _ _ => by simp) j
+      | applyFlags k fl => exact mget_mstep m hnd _ (fun _ _ _ => by simp) j
+      | defrag f => rfl
+      | sync => rfl
+      | noSync => rfl
+    rw [this]
+
 end GocoinV.Proofs.C19
